@@ -220,17 +220,22 @@ func (fs *Store) PurgeMessages(mailbox string) error {
 	mb.Lock()
 	defer mb.Unlock()
 
-	// Emit delete events.
 	if !mb.indexLoaded {
 		if err := mb.readIndex(); err != nil {
 			return err
 		}
 	}
-	for _, m := range mb.messages {
-		fs.extHost.Events.AfterMessageDeleted.Emit(message.MakeMetadata(m))
-	}
+	purged := append([]*Message(nil), mb.messages...)
+	err := mb.purge()
 
-	return mb.purge()
+	// Emit delete events once the messages are gone, not before: if the index cannot be removed
+	// they are all still there.
+	if err == nil || mb.indexGone() {
+		for _, m := range purged {
+			fs.extHost.Events.AfterMessageDeleted.Emit(message.MakeMetadata(m))
+		}
+	}
+	return err
 }
 
 // VisitMailboxes accepts a function that will be called with the messages in each mailbox while it
